@@ -25,6 +25,11 @@ Monitors (all observe real executions of core.REPO):
      support membership.  ModifiedHalfNormal: the arguments handed to the rejection sampler are
      compared with the constructor's, and _MHN_sample is driven directly in every regime (observed
      by wrapping the three proposal routines) against the documented density.
+ (f) history: after the public parameters of an object that has already been sampled from are
+     re-assigned, monitor (a) is repeated on the same object (Gaussian types); the other families
+     must draw exactly like a freshly built object under the same generator state (else (e)).
+     The branch taken without rng= must give the same draws as rng=RandomState(s) after
+     np.random.seed(s) (else (e) on that branch).
 """
 import math
 import numpy as np
@@ -49,14 +54,14 @@ ASSUMPTIONS = ["coordinates of the univariate families (Normal, Gamma, InverseGa
 NS_STAT = {"quick": 25000, "thorough": 1000000}
 N_KNOTS = {"quick": 300, "thorough": 600}
 REQUIRED_COUNTERS = {
-    "quick": {"affine_map_read": 180, "cov_vs_logd_hessian_checked": 90, "mode_checked": 90, "stream_replay_checked": 550,
+    "quick": {"affine_map_read": 250, "cov_vs_logd_hessian_checked": 170, "mode_checked": 170, "stream_replay_checked": 750,
               "rng_reproducible_checked": 100, "global_state_checked": 100, "draws_distinct_checked": 100, "wrapper_shape_checked": 300,
               "ks_tests": 20, "moment_tests": 35, "independence_tests": 30, "conditional_refusal_checked": 15, "mhn_regime_draws": 150000,
-              "history_reassign_checked": 70},
-    "thorough": {"affine_map_read": 340, "cov_vs_logd_hessian_checked": 170, "mode_checked": 170, "stream_replay_checked": 1000,
-                 "rng_reproducible_checked": 190, "global_state_checked": 180, "draws_distinct_checked": 180, "wrapper_shape_checked": 550,
+              "history_reassign_checked": 90, "global_branch_checked": 8},
+    "thorough": {"affine_map_read": 580, "cov_vs_logd_hessian_checked": 380, "mode_checked": 380, "stream_replay_checked": 1700,
+                 "rng_reproducible_checked": 210, "global_state_checked": 200, "draws_distinct_checked": 200, "wrapper_shape_checked": 620,
                  "ks_tests": 45, "moment_tests": 75, "independence_tests": 60, "conditional_refusal_checked": 15, "mhn_regime_draws": 4000000,
-                 "history_reassign_checked": 150}}
+                 "history_reassign_checked": 200, "global_branch_checked": 15}}
 BUDGET_S = {"quick": 240.0, "thorough": 2400.0}
 
 P_STAT = 1e-7
